@@ -815,6 +815,16 @@ static ares_status_t process_answer(ares_channel_t      *channel,
     goto cleanup;
   }
 
+  /* The response must arrive on the connection the query was most recently
+   * sent on.  Anything showing up on another socket (a connection the query
+   * has since moved away from, or a socket to a different server) is stale or
+   * spoofed; accepting it would defeat source port randomisation (RFC 5452
+   * section 9.1). */
+  if (query->conn != conn) {
+    status = ARES_SUCCESS;
+    goto cleanup;
+  }
+
   /* Validate DNS cookie in response. This function may need to requeue the
    * query. */
   if (ares_cookie_validate(query, rdnsrec, conn, now, requeue)
